@@ -52,6 +52,7 @@ def run(prog: Program, rep, tier="quick"):
     rep.rule("R16.3", "SIBLINGS-AGREE: the value compared with old_ref defaults to ZERO_SHA when the ref is absent")
     rep.rule("R16.4", "writable backends override the abstract operations; overrides accept the base signature")
     rep.rule("R16.5", "TABLE-AGREE: check_ref_format tests every rule of git-check-ref-format(1), each on a path to False")
+    rep.rule("R16.11", "add_if_new decides existence through the backend's merged read and the resolved value; namespace views answer in their own names")
     rep.rule("R16.10", "TABLE-AGREE with git: symref resolution depth (SYMREF_MAXDEPTH = 5)")
     rep.rule("R16.9", "unconditional (old_ref=None) set/remove always take effect: no `return True` without a state mutation before it")
     rep.rule("R16.7", "files backend: after symref resolution, paths and file/directory conflict probes use the resolved name")
@@ -227,6 +228,45 @@ def run(prog: Program, rep, tier="quick"):
            (f"the loop gives up when `{norm(bounds[0][0].test)}`" if bounds else "no depth bound found") +
            ": a loop-free chain that git still resolves raises SymrefLoop here (and updates through it detach HEAD)",
            bounds[0][0].lineno if bounds else fo.node.lineno)
+    # ---- R16.11 add_if_new decides existence through the backend's own merged read (the one lookups use) and looks at the value
+    # that read returns; a namespace view answers in the names of the view
+    EXIST_READS = {"follow", "read_loose_ref", "read_ref", "get_packed_refs", "__contains__"}
+    n11 = 0
+    for cls in bks:
+        m11 = cls.module
+        f11 = m11.funcs.get(f"{cls.name}.add_if_new")
+        if f11 is None or _is_abstract(f11) or _delegates(f11, ("add_if_new",)):
+            continue
+        n11 += 1
+        reads = [c for c in ast.walk(f11.node) if isinstance(c, ast.Call) and callee_name(c) in EXIST_READS and isinstance(c.func, ast.Attribute)
+                 and isinstance(c.func.value, ast.Name) and c.func.value.id == "self"]
+        in_tests = [x for x in ast.walk(f11.node) if isinstance(x, ast.Compare) and isinstance(x.ops[0], (ast.In, ast.NotIn)) and norm(x.comparators[0]).startswith("self._refs")]
+        rep.ob("R16.11", m11.rel, f11.qual, "existence is decided through the backend's merged read (follow / read_loose_ref / the ref map)", bool(reads) or bool(in_tests),
+               "add_if_new scans the storage by itself instead of using the read the lookups use: records that the merged view interprets (a deletion "
+               "record, a newer table) count as 'exists' or are missed", f11.node.lineno)
+        # the value follow() returns is looked at (a symref chain whose target exists only packed / under another name)
+        for a_ in [x for x in ast.walk(f11.node) if isinstance(x, ast.Assign) and isinstance(x.value, ast.Call) and callee_name(x.value) == "follow"
+                   and isinstance(x.targets[0], ast.Tuple) and len(x.targets[0].elts) == 2]:
+            v2 = a_.targets[0].elts[1]
+            used = isinstance(v2, ast.Name) and v2.id != "_" and any(isinstance(y, ast.Name) and y.id == v2.id and isinstance(y.ctx, ast.Load) for y in ast.walk(f11.node))
+            rep.ob("R16.11", m11.rel, f11.qual, "the value follow() resolves to decides whether the ref exists", used,
+                   "the resolved value is thrown away: whether the ref exists is then decided from one file name / one packed entry, which misses a "
+                   "symbolic ref whose target exists only in packed-refs (add_if_new through HEAD overwrites it)", a_.lineno)
+    if n11 < 3:
+        raise AnalysisError(f"expected >= 3 own add_if_new implementations, found {n11}")
+    ns = prog.module(REFS_PY).funcs.get("NamespacedRefsContainer.get_packed_refs")
+    if ns is None:
+        raise AnalysisError("NamespacedRefsContainer.get_packed_refs not found")
+    strip_vars = {x.targets[0].id for x in ast.walk(ns.node) if isinstance(x, ast.Assign) and isinstance(x.targets[0], ast.Name) and isinstance(x.value, ast.Call)
+                  and callee_name(x.value) == "_strip_namespace"}
+
+    def stripped_key(k):
+        return any((isinstance(y, ast.Call) and callee_name(y) == "_strip_namespace") or (isinstance(y, ast.Name) and y.id in strip_vars) for y in ast.walk(k))
+    keys = [x.key for x in ast.walk(ns.node) if isinstance(x, ast.DictComp)] + \
+        [x.targets[0].slice for x in ast.walk(ns.node) if isinstance(x, ast.Assign) and isinstance(x.targets[0], ast.Subscript)]
+    rep.ob("R16.11", REFS_PY, ns.qual, "the namespace view keys its packed refs by the stripped names", bool(keys) and all(stripped_key(k) for k in keys),
+           "the dict is keyed by the names of the underlying container: the inherited read_ref looks up the view's (stripped) name and never finds "
+           "a packed-only ref", ns.node.lineno)
     # ---- R16.5
     m = prog.module(REFS_PY)
     crf = prog.func(REFS_PY, "check_ref_format")
